@@ -6,6 +6,7 @@ mod driver;
 mod model;
 mod mtbdd;
 mod proto;
+mod sched;
 mod tdd;
 
 fn main() {
